@@ -40,6 +40,7 @@ type c02Node struct {
 	Values            []string    `json:"values,omitempty"`
 	Inaccessible      []string    `json:"inaccessible,omitempty"`
 	S                 string      `json:"s,omitempty"`
+	IsTypeName        bool        `json:"isTypeName,omitempty"` // String node that renders __typename
 }
 
 func toSet(xs []string) map[string]struct{} {
@@ -84,7 +85,7 @@ func (n *c02Node) build() resolve.Node {
 	case "scalar":
 		switch n.Kind {
 		case "string":
-			return &resolve.String{Path: n.Path, Nullable: n.Nullable}
+			return &resolve.String{Path: n.Path, Nullable: n.Nullable, IsTypeName: n.IsTypeName}
 		case "boolean":
 			return &resolve.Boolean{Path: n.Path, Nullable: n.Nullable}
 		case "int":
@@ -171,7 +172,7 @@ func (g *c02Gen) object(depth, od int, path []string, nullable bool) *c02Node {
 	}
 	nf := 1 + r.Intn(4)
 	if r.Intn(3) == 0 {
-		o.Fields = append(o.Fields, &c02Field{Name: "__typename", Value: &c02Node{K: "scalar", Kind: "string", Path: []string{"__typename"}, Nullable: false}})
+		o.Fields = append(o.Fields, &c02Field{Name: "__typename", Value: &c02Node{K: "scalar", Kind: "string", Path: []string{"__typename"}, Nullable: false, IsTypeName: r.Intn(4) != 0}})
 	}
 	for i := 0; i < nf; i++ {
 		name := fmt.Sprintf("f%d", i)
@@ -291,6 +292,10 @@ func (p *c02Payload) value(n *c02Node, depth int) any {
 				obj["__typename"] = json.Number("5") // wrong kind
 				tn = ""
 			}
+		}
+		if tn != "" && len(n.Possible) == 0 && r.Intn(6) == 0 {
+			// nothing constrains the runtime type name of this object: any string may come back
+			tn = pick(r, []string{"Ty\"pe", "Back\\slash", "new\nline", "tab\there", "ünï", "a\u0001b", "\",\"injected\":\"x"})
 		}
 		if tn != "" && (len(n.Possible) > 0 || r.Intn(2) == 0) {
 			obj["__typename"] = tn
